@@ -55,6 +55,7 @@ register("EBR-DEFERRED-INLINE", rules_ebr.rule_deferred_inline)
 register("EBR-TLS", rules_ebr.rule_tls)
 register("EBR-LIVE-PRECOND", rules_ebr.rule_live_precond)
 register("EBR-FLUSH-SCHEDULES", rules_ebr.rule_flush_schedules)
+register("EBR-CELL-RMW", rules_ebr.rule_cell_rmw)
 register("EBR-LIST", rules_ebr.rule_list)
 register("EBR-QUEUE", rules_ebr.rule_queue)
 register("EBR-QUEUE-DROP", rules_ebr.rule_queue_drop)
@@ -95,7 +96,7 @@ prop("C15", "other",
      ["'eventually' (liveness) beyond its structural part: every flush / bag overflow schedules a collection and every "
       "collection tries to advance (EBR-FLUSH-SCHEDULES); that finitely many rounds suffice is not decided"], assumptions=TRUST)
 prop("C16", "other",
-     ["EBR-GUARD-COUNT", "EBR-REACTIVATE", "EBR-EPOCH-WRITERS", "EBR-COLLECT-OUTERMOST", "TY-SIG", "EBR-LIVE-PRECOND"],
+     ["EBR-GUARD-COUNT", "EBR-REACTIVATE", "EBR-EPOCH-WRITERS", "EBR-COLLECT-OUTERMOST", "TY-SIG", "EBR-LIVE-PRECOND", "EBR-CELL-RMW"],
      ["re-entrancy from destructors running during collection beyond EBR-COLLECT-OUTERMOST"],
      witnesses=["TY-REACTIVATE-MUT", "TY-GUARD-NOT-SEND"], assumptions=TRUST)
 prop("C17", "other",
@@ -108,7 +109,7 @@ prop("C19", "proof",
      ["CMP-DELEGATE"],
      [], assumptions=["std's PartialEq/PartialOrd/Ord/Hash for Option<&T> are lawful given T's", "rustc callee resolution"])
 prop("C20", "other",
-     ["EBR-TLS", "EBR-FINALIZE-HANDOFF", "EBR-NO-FORGET", "EBR-LIVE-PRECOND"],
+     ["EBR-TLS", "EBR-FINALIZE-HANDOFF", "EBR-NO-FORGET", "EBR-LIVE-PRECOND", "EBR-CELL-RMW"],
      ["deadlock freedom and every TLS destruction order"], assumptions=TRUST)
 
 # ------------------------------------------------------------------------------------------
